@@ -25,12 +25,12 @@ CLAIMED = {
               "evaluated on the implementation with the Lean path interpreter Spec.interp (SVG 8.3) as judge. Semantic "
               "preservation is proved by simulation for explicit_lines() (explicitLines_preserves_curve), expand_shorthand() "
               "(expandShorthand_preserves_curve: the reflection SVG 8.3 prescribes, after a curve of the same family only, for "
-              "shorthand chains of any length) and absolute() "
+              "shorthand chains of any length), relative() (relative_preserves_curve) and absolute() "
               "(absolute_preserves_curve: whenever the 1e-9 end-point snapping does not fire; unconditionally at tolerance 0): "
               "for every command sequence the specification gives a meaning to, Spec.interp of the output equals Spec.interp of "
               "the input; the walker's current point / subpath start equal the interpreter's after every command for all twenty "
               "letters (nextPos_is_current_point), and any callback that is sound command by command inherits the result "
-              "(sound_callback_preserves_curve). For arcs_to_cubics, move, relative and the shapes the semantic half is "
+              "(sound_callback_preserves_curve). For arcs_to_cubics, move and the shapes the semantic half is "
               "carried by the Spec-judged search."),
         note=("Trusted: Lean kernel; propext/Classical.choice/Quot.sound; Spec/PathInterp.lean, Spec/Shapes.lean; translator; "
               "harness; F64 ntos/round bridge. One recorded finding (smooth shorthand directly after an arc in "
